@@ -1105,7 +1105,7 @@ def run(ctx):
             ctx.notes.append(f"memoised function {w.__module__}.{w.__name__} is not re-wrapped by set_cache_maxsize")
     install()
     ST.record = {}
-    budget = 42.0 if quick else 480.0
+    budget = 36.0 if quick else 480.0
     t_end = ctx.t0 + budget
     n_pristine = 100 if quick else 800
     n_resizing = 350 if quick else 4000
